@@ -379,8 +379,15 @@ def r6s_format_structured(src, ctx):
         src = src[:ct[i].s] + rep + src[ct[c].e:]
 
 
+def _r22_dedup(src, ctx):
+    def rep(m):
+        ctx.log.append(('R22', m.group(0), f'verif_dedup(&mut {m.group(1)});'))
+        return f'verif_dedup(&mut {m.group(1)});'
+    return re.sub(r'\b(\w+)\.dedup\(\);', rep, src)
+
+
 def r22_str_methods(src, ctx):
-    """`X.trim_end()` -> verif_trim_end(&X); `X.trim_end().to_string()` -> verif_str_to_string(verif_trim_end(&X)); `<that> + "lit"` -> verif_str_add"""
+    """`v.dedup();` -> verif_dedup(&mut v); `X.trim_end()` -> verif_trim_end(&X); `X.trim_end().to_string()` -> verif_str_to_string(verif_trim_end(&X)); `<that> + "lit"` -> verif_str_add"""
     while True:
         ct = _ct(src)
         hit = None
@@ -1059,6 +1066,7 @@ def apply_all(src, ctx):
     if getattr(ctx, 'fmt_structured', False):
         src = r6s_format_structured(src, ctx)
         src = r22_str_methods(src, ctx)
+        src = _r22_dedup(src, ctx)
     src = r6_format(src, ctx)
     src = r5_let_chain(src, ctx)
     src = r8_sort(src, ctx)
